@@ -386,8 +386,10 @@ type Free struct {
 }
 
 func genFree(r *vh.Rng, thorough bool) *Case {
-	st := Settings{MaxWait: r.Pick64([]int64{3, 10, 25}), QueueCap: r.Pick64([]int64{0, 1000, 1000, 3, 1, 2, 5}),
-		MaxBuf: r.Pick64([]int64{1, 60, 100, 257, 1000, 4096, 65536}), ZipMin: r.Pick64([]int64{0, 40, 100, 300, 1 << 30})}
+	// boundary values of every setting are exercised against the real goroutine too: a waiting time of
+	// 0, 1 or negative (GetTimeout must still poll once), buffer / zip-min / queue size 0, 1, negative
+	st := Settings{MaxWait: r.Pick64([]int64{3, 10, 25, 3, 10, 0, 1, -5}), QueueCap: r.Pick64([]int64{0, 1000, 1000, 3, 1, 2, 5, -1}),
+		MaxBuf: r.Pick64([]int64{1, 60, 100, 257, 1000, 4096, 65536, 0, -1}), ZipMin: r.Pick64([]int64{0, 40, 100, 300, 1 << 30, 1, -1})}
 	c := &Case{Kind: "free", Settings: st, Client: r.PickStr([]string{"consume", "retain"}), Fault: genFault(r)}
 	f := &Free{StopEarly: r.Chance(50), Accept: r.PickStr([]string{"failed", "put", "put", "stalled"})}
 	// producers much faster than the sender: bursts without pauses against a slow client
